@@ -793,7 +793,7 @@ func init() {
 			for _, sc := range c08ConcurrentScenarios(tier) {
 				jobs = append(jobs, ExploreJob("C08", sc, oracleC08Concurrent))
 			}
-			return jobs
+			return append(jobs, c08DpReserveJob())
 		}})
 	replayers["C08"] = func(tier string, v coop.Violation) int {
 		if len(v.Choices) > 0 {
